@@ -518,6 +518,77 @@ def _catch_all(fi, node):
     return None, None, None
 
 
+def _deferred_functions(fi):
+    """Lambdas and nested function definitions written in the body of ``fi`` (their code runs where they are called)."""
+    out = []
+    for n in walk_body(fi.node):
+        if isinstance(n, ast.Lambda) or (isinstance(n, (ast.FunctionDef, ast.AsyncFunctionDef)) and n is not fi.node):
+            out.append(n)
+    return out
+
+
+def _runner_verdict(repo, fi, fn_node):
+    """Where does a lambda / nested function of ``fi`` run?  (True, where) when every place that calls it is inside a
+    sound catch-all (in ``fi`` itself, or in the function of the module it is handed to: ``_attempt(lambda: ..., {})``);
+    (False, why) when a call that can be seen is not contained; (None, why) when it cannot be told."""
+    parents = fi.mod.parents
+    if isinstance(fn_node, ast.Lambda):
+        par = parents.get(fn_node)
+        if isinstance(par, ast.Assign) and len(par.targets) == 1 and isinstance(par.targets[0], ast.Name) and par.value is fn_node:
+            name = par.targets[0].id
+            if len(assigned_value(fi.node, name)) != 1:
+                return None, 'the name %s is bound more than once' % name
+            uses = [n for n in walk_body(fi.node) if isinstance(n, ast.Name) and n.id == name and isinstance(n.ctx, ast.Load)]
+        else:
+            uses = [fn_node]
+    else:
+        name = fn_node.name
+        if assigned_value(fi.node, name):
+            return None, 'the name %s is re-bound' % name
+        uses = [n for n in walk_body(fi.node) if isinstance(n, ast.Name) and n.id == name and isinstance(n.ctx, ast.Load)]
+    if not uses:
+        return None, 'never used'
+    where = []
+    for u in uses:
+        par = parents.get(u)
+        call, kwname = None, None
+        if isinstance(par, ast.keyword):
+            kwname, call = par.arg, parents.get(par)
+        elif isinstance(par, ast.Call):
+            call = par
+        if call is None:
+            return None, 'used as a value (%s)' % short(par, 40)
+        if call.func is u:
+            tr, h, problem = _catch_all(fi, call)
+            if h is None or problem:
+                return False, 'it is called %s' % ('outside any catch-all handler' if h is None else 'where ' + problem)
+            where.append(fi.qualname)
+            continue
+        g = _module_callee(repo, fi, call)
+        if g is None:
+            return None, 'handed to %s' % short(call.func, 30)
+        gps = g.params()
+        if kwname is not None:
+            pname = kwname if kwname in gps else None
+        else:
+            idx = [i for i, a in enumerate(call.args) if a is u]
+            pname = gps[idx[0]] if idx and idx[0] < len(gps) and not any(isinstance(a, ast.Starred) for a in call.args[:idx[0] + 1]) else None
+        if pname is None or assigned_value(g.node, pname):
+            return None, 'handed to %s in a way that cannot be followed' % g.qualname
+        loads = [n for n in walk_body(g.node) if isinstance(n, ast.Name) and n.id == pname and isinstance(n.ctx, ast.Load)]
+        if not loads:
+            return None, '%s never calls it' % g.qualname
+        for l in loads:
+            gp = g.mod.parents.get(l)
+            if not (isinstance(gp, ast.Call) and gp.func is l):
+                return None, '%s passes it on' % g.qualname
+            tr, h, problem = _catch_all(g, gp)
+            if h is None or problem:
+                return False, '%s calls it %s' % (g.qualname, 'outside any catch-all handler' if h is None else 'where ' + problem)
+        where.append(g.qualname)
+    return True, ', '.join(sorted(set(where)))
+
+
 def _is_parser_call(fi, c):
     if not isinstance(c, ast.Call):
         return False
@@ -1021,8 +1092,23 @@ def _parser_contained(rep, fs):
         rep.ok('R20.b', fkey(ca, c), 'this parser method cannot raise (no call, subscript or raise in its body)', flaw, c)
     contained_elsewhere = [c for c in walk_body(ca.node) if isinstance(c, ast.Call) and _module_callee(repo, ca, c) is not None
                            and _module_callee(repo, ca, c).qualname in calls_parser]
-    if not sites and not contained_elsewhere and not harmless:
+    deferred = []
+    for fn in _deferred_functions(ca):
+        inner = [c for c in ast.walk(fn) if isinstance(c, ast.Call) and
+                 (_is_parser_call(ca, c) or (_module_callee(repo, ca, c) is not None and _module_callee(repo, ca, c).qualname in leaky))
+                 and not _harmless_parser_method(repo, ca, c)]
+        if inner:
+            deferred.append((fn, inner))
+    if not sites and not contained_elsewhere and not harmless and not deferred:
         raise AnalysisError('create_app no longer calls the traceback parser')
+    for fn, inner in deferred:
+        verdict, detail = _runner_verdict(repo, ca, fn)
+        if verdict is None:
+            raise AnalysisError('create_app: the parser is called from %s, and where that runs cannot be told (%s)' % (short(fn, 50), detail))
+        for c in inner:
+            rep.check('R20.b', fkey(ca, c), verdict,
+                      'parser call runs under the catch-all of %s' % detail if verdict else
+                      'parser call %s can raise out of create_app: %s' % (short(c), detail), flaw, c)
     for c in sites:
         tr, h, problem = _catch_all(ca, c)
         ok = h is not None and not problem
@@ -1085,6 +1171,18 @@ def _parser_contained(rep, fs):
                   '%s is under a catch-all handler that completes with a harmless value' % why if ok else
                   '%s can raise (empty / non-text input) %s' % (short(n), 'outside any catch-all handler' if h is None else '-- ' + problem),
                   flaw, n)
+    for fn in _deferred_functions(epf):
+        inner = [n for n in ast.walk(fn) if (isinstance(n, ast.Subscript) and isinstance(n.ctx, ast.Load)) or
+                 (isinstance(n, ast.Call) and not _safe_builtin_call(n))]
+        if not inner:
+            continue
+        verdict, detail = _runner_verdict(repo, epf, fn)
+        if verdict is None:
+            raise AnalysisError('%s: where %s runs cannot be told (%s)' % (epf.qualname, short(fn, 50), detail))
+        n_risky += 1
+        rep.check('R20.b', fkey(epf, fn), verdict,
+                  '%s runs under the catch-all of %s' % (short(fn, 50), detail) if verdict else
+                  '%s can raise (empty / non-text input): %s' % (short(fn, 50), detail), flaw, fn)
     ctx_last = [v for _, items in fs.context for k, v in items.items() if k == 'last_line']
     if not n_risky and ctx_last and not all(_param_behind(epf, v) for v in ctx_last):
         raise AnalysisError('%s: the computation of last_line was not found' % epf.qualname)
@@ -1099,6 +1197,8 @@ _CONTAINER_METHODS = ('update', 'setdefault', 'append', 'extend', 'insert', 'add
 
 def _fresh_is_container(fi, name):
     """Every binding of the local is a dict / list / set display or constructor call (so the container methods are the builtin ones)."""
+    if fi.node.args.kwarg is not None and fi.node.args.kwarg.arg == name and not assigned_value(fi.node, name):
+        return True       # **kwargs: a dict made for this call
     binds = assigned_value(fi.node, name)
     return bool(binds) and all(
         idx is None and (isinstance(v, (ast.Dict, ast.List, ast.Set, ast.DictComp, ast.ListComp, ast.SetComp)) or
@@ -1135,8 +1235,9 @@ def _risky_nodes(repo, fi, depth=0, seen=None):
         if id(n) in in_handlers:
             continue      # handler bodies are judged by _handler_completes
         if isinstance(n, ast.Call) and isinstance(n.func, ast.Attribute) and isinstance(n.func.value, ast.Name) and \
-                n.func.value.id in fresh and n.func.attr in _CONTAINER_METHODS and _fresh_is_container(fi, n.func.value.id):
-            continue      # info.update(k=v) / lines.append(x) on a container built right here
+                n.func.value.id in fresh and _fresh_is_container(fi, n.func.value.id) and \
+                (n.func.attr in _CONTAINER_METHODS or (n.func.attr == 'pop' and len(n.args) == 2)):
+            continue      # info.update(k=v) / lines.append(x) / kwargs.pop('k', default) on a container built right here
         if isinstance(n, ast.Subscript) and isinstance(n.ctx, ast.Load):
             out.append((n, 'subscript %s' % short(n, 50)))
         elif isinstance(n, ast.Call):
